@@ -99,7 +99,10 @@ def rebuild_sites(repo, only_methods: Optional[Set[str]] = None):
                 covered = set()
                 for p in bound_names:
                     covered |= p2f.get(p, set())
-                missing = {p for p in params if p2f.get(p) and p not in bound_names and not p2f[p] <= covered}
+                def _primary(p_):
+                    # a parameter that has a same-named field is the primary source of that field: no other argument can stand in for it
+                    return bool({p_, '_' + p_} & p2f.get(p_, set()))
+                missing = {p for p in params if p2f.get(p) and p not in bound_names and (_primary(p) or not p2f[p] <= covered)}
                 # a parameter may be omitted where a dominating test pins its field to the default
                 if missing:
                     from ..flow import dominating_atoms
